@@ -187,6 +187,9 @@ def run_sync(spec: dict, history: List[list], opts: Optional[dict] = None) -> Ru
                         interp.start()
                     elif op[0] in ("send", "sendp"):
                         interp.send(_mk_event(op))
+                    elif op[0] == "send!":
+                        # send and do NOT let other threads run before the next op
+                        interp.send(_mk_event(["send", op[1], op[2]]))
                     elif op[0] == "batch":
                         from xstate_statemachine import Event
 
@@ -222,7 +225,7 @@ def run_sync(spec: dict, history: List[list], opts: Optional[dict] = None) -> Ru
                         extra["resnap"] = interp.get_snapshot()
                     else:
                         raise ValueError(op)
-                    if sched and op[0] != "advance":
+                    if sched and op[0] not in ("advance", "send!"):
                         sched.settle()
                     if rec.blown:
                         raise StepBudgetExceeded("budget blown in another thread")
@@ -355,6 +358,8 @@ def run_async(spec: dict, history: List[list], opts: Optional[dict] = None) -> R
                         await interp.start()
                     elif op[0] in ("send", "sendp"):
                         await interp.send(_mk_event(op))
+                    elif op[0] == "send!":
+                        await interp.send(_mk_event(["send", op[1], op[2]]))
                     elif op[0] == "batch":
                         from xstate_statemachine import Event
 
@@ -389,7 +394,8 @@ def run_async(spec: dict, history: List[list], opts: Optional[dict] = None) -> R
                         await interp.start()
                     else:
                         raise ValueError(op)
-                    await _quiesce(interp, loop)
+                    if op[0] != "send!":
+                        await _quiesce(interp, loop)
                     if interp._event_loop_task is not None:
                         _raise_if_budget(interp._event_loop_task)
                     if rec.blown:
